@@ -430,7 +430,10 @@ def shape_expectation(fc, mc):
     if fd <= 1:
         return "accept" if (fd == 0 or md <= 1) else "either"
     if md == 0:
-        return "accept"
+        # fixed stack (k >= 2) vs a single mobile array: k transformations for one model; the
+        # statement does not say this call must succeed (biotite refuses it with a clear
+        # IndexError from apply()) -> exception or a correct model-wise result are both fine
+        return "either"
     if md == 1:
         return "either"
     return "accept" if md == fd else "refuse"
